@@ -19,6 +19,9 @@ type GradSetup struct {
 	Matrix  [6]float32
 	Break   string // "" or how the stops were made invalid
 	Reg     uint8  // colour register holding the gradient value
+	// ReservedRedBits: the gradient value was written with (some of) the two reserved high bits of
+	// its red byte set.
+	ReservedRedBits bool
 }
 
 // Offsets draws n strictly increasing offsets in [0,1] on exactly
@@ -169,7 +172,13 @@ func GradientBlock(t *rapid.T, matrix func(t *rapid.T, label string) [6]float32,
 		}
 	}
 	adj := Adj(t, "g.adj")
-	out = append(out, ops.OpSetCSel((g.Reg+adj)&63), ops.OpSetCReg(adj, false, ops.RGBAv(spec.EncodeGradientBits(g.Bits))))
+	gv := spec.EncodeGradientBits(g.Bits)
+	if rapid.IntRange(0, 4).Draw(t, "g.reserved") == 0 {
+		// "The high 2 bits of the red value are reserved": NSTOPS is the low six whatever they hold
+		gv.R |= uint8(rapid.IntRange(1, 3).Draw(t, "g.reservedbits")) << 6
+		g.ReservedRedBits = true
+	}
+	out = append(out, ops.OpSetCSel((g.Reg+adj)&63), ops.OpSetCReg(adj, false, ops.RGBAv(gv)))
 	return out, g
 }
 
